@@ -772,17 +772,24 @@ class C17(Property):
         "no_upward_leak", "step_untouched", "no_upward_leak_history",
         "read_is_overlay_class", "read_is_overlay_inst",
         "overlay_applyOp", "dict_semantics_class", "dict_semantics_inst",
-        "dict_result_class", "iter_result_class",
+        "dict_result_class", "iter_result_class", "dict_result_inst", "iter_result_inst", "itemsOf_iItems",
+        "iWrite_nodup",
         "sees_ancestor", "write_visible_below", "write_visible_below_inst",
         "detached", "detached_history",
         "WF_step", "NoShared_step", "inv_run",
         "C17_full_fails", "C17_full_fails_shared", "C17_full_fails_mi", "read_is_overlay_fails_mi",
     )]
-    level_text = "proof"
-    level_note = ("non-interference, read=overlay, dict semantics (state change and results), downward visibility and "
-                  "detachment are proved for every store/history of the model; the history-level identification with the "
-                  "layered store of the property text (C17_Full) is false of the code as it is (three negation witnesses = "
-                  "KF-C17-a/b/c) and is checked on every generated history by the runner (spec_agrees) outside those classes")
+    level_text = "proof (partial: sentence 1 over histories is refuted in full and not proved in guarded form)"
+    level_note = ("PROVED for every store/history of the model: non-interference (no_upward_leak, step_untouched, "
+                  "no_upward_leak_history), reading = overlay of the frames of the chain (read_is_overlay_*, a statement about a "
+                  "state: the layers are the model's own frames), dict semantics of every method through class AND instance "
+                  "views — state change (dict_semantics_*), order-free results (dict_result_*), iterating reads "
+                  "(iter_result_*, instance views under the local-storage Nodup invariant iWrite_nodup) —, downward "
+                  "visibility, detachment.  REFUTED: C17_Full (every history reads as the layered store of the property text) "
+                  "— three negation witnesses = KF-C17-a/b/c.  NOT PROVED: the guarded form of C17_Full (histories without "
+                  "the three finding classes): the one-step refinement abs(step σ c) = Spec.step (abs σ) c is evaluated at run "
+                  "time only (Run/C17.lean stepAgrees, on every step of every generated history outside the guards) and by "
+                  "the Python reference overlay")
     technique = "Lean 4 model + invariants + refinement to a layered-store specification; differential testing against /repo"
     trusted_base = [
         "Python's class machinery (type(), __mro__, attribute lookup of data descriptors, instance __dict__) is the "
